@@ -124,9 +124,13 @@ func (b *BuildRequestURL) Build(withParams ...M) *url.URL {
 		}
 	}
 
+	// Notice: replace all vars in one pass. A value that looks like the placeholder
+	// of another var (eg. "{id}") must not be substituted again.
+	pairs := make([]string, 0, len(varParams)*2)
 	for paramRegex, name := range varParams {
-		path = strings.NewReplacer(paramRegex, goutil.String(b.params[name])).Replace(path)
+		pairs = append(pairs, paramRegex, goutil.String(b.params[name]))
 	}
+	path = strings.NewReplacer(pairs...).Replace(path)
 
 	u.Path = path
 
